@@ -1,4 +1,5 @@
 import Upd.Frame
+import Properties.C06
 /-!
 # C07 — referrers responses list exactly the manifests that have the subject
 
@@ -76,4 +77,66 @@ theorem refs_frame (s : State) (r arg f c p r' : String) (h : r' ≠ r) : (refs 
   (frame_refs s r arg f c p).1 r' h
 
 example : PxS.split (fun (l : List Nat) => l.length) 2 [1, 2, 3] = [[1, 2], [3]] := by decide
+
+/-! ## known finding F35: the statement "regardless of whether S itself exists … across restart" fails over a collection
+
+On the collector model of C05/C06 (`Ixd.gc`, the transcription of `repoGarbageCollect`), under the default policy:
+subject 7 was deleted as a manifest (its blob is still there), artifact 5 (tagged, config 1) names it, response 9 lists 5
+and is registered for 7.  The collection keeps the artifact with its index entry and drops the response: afterwards the
+referrers API has nothing to read for subject 7 although manifest 5 with that subject is present.  The same history runs
+on the real server from `corpus/C07/f35.ops` (monitor `C07.refs-exact.response-collected-with-subject`). -/
+def f35Blobs : List Ixd.Blob :=
+  [{ dig := 1, json := false }, { dig := 7, cfg := 1 }, { dig := 5, cfg := 1 }, { dig := 9, kids := [(1, 5)] }]
+def f35Index : Ixd.Index :=
+  { manifests := [{ mt := 1, dig := 5, ann := { isNil := false, tag := 1 } }, { mt := 2, dig := 9, ann := { isNil := false, subj := 7 } }] }
+/-- Untagged off, ReferrersDangling off, ReferrersWithSubj on, no grace period: the defaults -/
+def pDefault : Ixd.Policy := ⟨false, false, true, false⟩
+
+private theorem f35_retD (g c : Nat) (h : Ixd.RetD pDefault f35Blobs f35Index.manifests g c) : g = 5 := by
+  induction h with
+  | root he hc hb =>
+    simp only [f35Index, List.mem_cons, List.mem_nil_iff, or_false] at he
+    rcases he with rfl | rfl
+    · rfl
+    · revert hc; decide
+  | child _ hb _ hk _ ih =>
+    subst ih
+    have : Ixd.getBlob f35Blobs 5 = some { dig := 5, cfg := 1 } := by decide
+    rw [this] at hb; cases hb; simp at hk
+  | resp _ _ _ he hc _ ih =>
+    subst ih
+    simp only [f35Index, List.mem_cons, List.mem_nil_iff, or_false] at he
+    rcases he with rfl | rfl <;> (revert hc; decide)
+
+private theorem f35_not_retained : ¬ Ixd.Retained pDefault f35Blobs f35Index.manifests 9 := by
+  intro h
+  have h5 : Ixd.getBlob f35Blobs 5 = some { dig := 5, cfg := 1 } := by decide
+  generalize hg : (9 : Nat) = g at h
+  cases h with
+  | desc hd => have := f35_retD _ _ hd; omega
+  | cfg hd hb _ =>
+    have := f35_retD _ _ hd; subst this
+    rw [h5] at hb; cases hb; simp at hg
+  | layer hd hb _ hl =>
+    have := f35_retD _ _ hd; subst this
+    rw [h5] at hb; cases hb; simp at hl
+  | recent _ _ hgr => simp [pDefault] at hgr
+
+/-- the default policy keeps the tagged artifact 5 (blob and index entry) and removes the response document 9 that lists
+    it, with its index entry: nothing is registered for subject 7 any more -/
+theorem gc_drops_response_of_present_referrer :
+    5 ∈ (Ixd.gc pDefault f35Index f35Blobs).blobs ∧
+    9 ∉ (Ixd.gc pDefault f35Index f35Blobs).blobs ∧
+    ∀ e ∈ (Ixd.gc pDefault f35Index f35Blobs).index.manifests, e.dig ≠ 9 := by
+  have hz : ∀ b ∈ f35Blobs, b.dig ≠ 0 := by decide
+  have hU : Ixd.SubjUnique f35Index.manifests := by unfold Ixd.SubjUnique; decide
+  have h9 : 9 ∉ (Ixd.gc pDefault f35Index f35Blobs).blobs := fun h =>
+    f35_not_retained ((C06.gc_exact pDefault f35Index f35Blobs hU hz 9).mp h).2
+  refine ⟨?_, h9, ?_⟩
+  · refine (C06.gc_exact pDefault f35Index f35Blobs hU hz 5).mpr ⟨⟨({ dig := 5, cfg := 1 } : Ixd.Blob), by decide, rfl⟩, ?_⟩
+    exact .desc (c := 1) (Ixd.RetD.root (e := { mt := 1, dig := 5, ann := { isNil := false, tag := 1 } }) (b := { dig := 5, cfg := 1 })
+      (by decide) (by decide) (by decide))
+  · intro e he hd
+    obtain ⟨_, _, hr⟩ := C06.gc_index_backed pDefault f35Index f35Blobs hz e he (by omega)
+    exact f35_not_retained (hd ▸ hr)
 end C07
